@@ -515,4 +515,37 @@ theorem walkPorts_code_empty (ts : List STree) (J : Buf) (hwf : TreeWF ts) (hcap
   rw [this] at h1
   simp only [List.length_cons, List.length_nil, Nat.zero_add, h1, List.nil_append]
 
+/-! ### counting -/
+
+theorem length_flatMap_const {α β : Type} (l : List α) (f : α → List β) (c : Nat) (h : ∀ a ∈ l, (f a).length = c) :
+    (l.flatMap f).length = l.length * c := by
+  induction l with
+  | nil => simp
+  | cons x r ih =>
+    simp only [List.flatMap_cons, List.length_append, List.length_cons, h x List.mem_cons_self,
+      ih (fun a ha => h a (List.mem_cons_of_mem _ ha))]
+    rw [Nat.add_mul, Nat.one_mul, Nat.add_comm]
+
+theorem expandParts_length (ps : List (Bytes × Bytes)) : (expandParts ps).length = partsCount ps := by
+  induction ps with
+  | nil => rfl
+  | cons p r ih =>
+    obtain ⟨ds, t⟩ := p
+    simp only [expandParts, partsCount]
+    rw [length_flatMap_const _ _ (partsCount r) (by intro i _; simp [ih])]
+    simp
+
+mutual
+theorem enumList_length : ∀ (ts : List STree) (pre : Bytes) (path : List Nat) (i : Nat),
+    (enumList pre path ts i).length = countList ts
+  | [], _, _, _ => rfl
+  | t :: r, pre, path, i => by
+    simp only [enumList, countList, List.length_append, enumTree_length t pre (path ++ [i]), enumList_length r pre path (i + 1)]
+theorem enumTree_length : ∀ (t : STree) (pre : Bytes) (ix : List Nat), (enumTree pre ix t).length = countTree t
+  | .leaf w md, pre, ix => by simp [enumTree, countTree, expandParts_length]
+  | .sub w md kids, pre, ix => by
+    simp only [enumTree, countTree]
+    rw [length_flatMap_const _ _ (countList kids) (fun a _ => enumList_length kids _ ix 0), expandParts_length]
+end
+
 end Rtosc.Walk
